@@ -431,3 +431,54 @@ func Mutate(r *hlib.Rng, seed, other []byte, cborAware bool) ([]byte, string) {
 	}
 	return []byte{byte(r.Intn(256))}, "extend"
 }
+
+// StructMutant is one deterministic structural mutant of a CBOR seed.
+type StructMutant struct {
+	Data []byte
+	What string
+}
+
+// StructSweep lists, for a well-formed CBOR seed, every mutant obtained by (a) removing ONE key/value
+// pair of a map (count fixed up: a missing optional or required field) and (b) replacing ONE complete
+// data item by null (a nil pointer where the decoder's user expects content), at every nesting level,
+// at most `budget` mutants (spread evenly over the items when there are more). Deterministic: the
+// validation code behind a decoder meets every single missing / null field of every seed on every run.
+func StructSweep(seed []byte, budget int) []StructMutant {
+	items := walkCBOR(seed)
+	var out []StructMutant
+	for i, it := range items {
+		if it.end <= 0 {
+			continue
+		}
+		if i > 0 {
+			out = append(out, StructMutant{replace(seed, it.off, it.end, []byte{0xf6}), "null-item"})
+		}
+		if !it.isKey || it.parent < 0 {
+			continue
+		}
+		m := items[it.parent]
+		if m.major != 5 || m.hdr != 1 || m.arg == 0 || m.arg > 23 {
+			continue
+		}
+		valEnd := -1
+		for _, x := range items {
+			if x.parent == it.parent && !x.isKey && x.off == it.end {
+				valEnd = x.end
+			}
+		}
+		if valEnd < 0 {
+			continue
+		}
+		d := replace(seed, it.off, valEnd, nil)
+		d[m.off] = 5<<5 | byte(m.arg-1)
+		out = append(out, StructMutant{d, "drop-pair"})
+	}
+	if budget > 0 && len(out) > budget {
+		var sel []StructMutant
+		for i := 0; i < budget; i++ {
+			sel = append(sel, out[i*len(out)/budget])
+		}
+		out = sel
+	}
+	return out
+}
